@@ -104,6 +104,15 @@ type Interp struct {
 
 	tagOverride map[tagKey]Str
 	cur *frame
+	dom map[int]*byteDom
+	multi map[int]bool
+	epoch uint32
+	noDom bool
+	sharing *Sharing
+	curItem Item
+	startPrefix []pfx
+	lastReset int
+	domCheckEvery int
 	osStdout, osStderr *Val
 	rtypePtr  types.Type
 	errorType types.Type
@@ -137,6 +146,8 @@ func NewInterp(prog *ssa.Program, mainPkg *ssa.Package) *Interp {
 		kfHits:    map[string]int{},
 		knownFindings: map[string]bool{},
 		witnessEvery: 0,
+		domCheckEvery: 64,
+		noDom: os.Getenv("GOSYMX_NODOM") != "",
 	}
 	in.errorType = types.Universe.Lookup("error").Type()
 	in.intrinsics = map[string]func(in *Interp, fr *frame, args []Val) Val{}
